@@ -214,7 +214,7 @@ def reconfigure (ext : Ext) (m : Mw) (cfg : Option Config) : Option Err × Mw :=
     | .ok icfg => (none, { icfg := some icfg, debug := m.debug })
 
 /-- `SetDebug`. -/
-def setDebug (m : Mw) (b : Bool) : Mw := { m with debug := b }
+def setDebug (m : Mw) (b : Bool) : Mw := { m with debug := b && m.icfg.isSome }
 
 /-- `Config`. -/
 def config (m : Mw) : Option Config := m.icfg.map newConfig
